@@ -578,6 +578,8 @@ pub struct LineBuf {
 	pub insert_mode_start_pos: Option<usize>,
 	pub inserting_from_visual: bool,
 	pub saved_col: Option<usize>,
+	/// The count given to the verb that is being executed (`3p` puts three copies)
+	pub verb_count: usize,
 
 	pub undo_stack: Vec<Edit>,
 	pub redo_stack: Vec<Edit>,
@@ -3644,27 +3646,41 @@ impl LineBuf {
 						}
 					}
 					_ => {
+						// A count puts that many copies
+						let content = match content {
+							RegisterContent::Span(text) => RegisterContent::Span(text.repeat(self.verb_count.max(1))),
+							RegisterContent::Line(text) => RegisterContent::Line(text.repeat(self.verb_count.max(1))),
+							other => other
+						};
 						if register.is_line() {
 							let insert_idx = match anchor {
 								Anchor::After => self.end_of_line(),
 								Anchor::Before => self.start_of_line()
 							};
+							// After an unterminated last line the text starts one further: a newline goes in between
+							let starts_at = if self.grapheme_before(insert_idx).is_some_and(|gr| gr != "\n") { insert_idx + 1 } else { insert_idx };
 							self.insert_register_content(insert_idx, content, anchor);
-							let down_line = self.eval_motion(None, MotionCmd(1,Motion::LineDownCharwise));
-							self.move_cursor(down_line);
+							// The cursor goes to the first non-blank of the first line that was put
+							self.cursor.set(starts_at);
 							let first_non_ws = self.eval_motion(None, MotionCmd(1,Motion::FirstGraphicalOnScreenLine));
 							self.move_cursor(first_non_ws);
 						} else {
+							// After the cursor - but an empty line (or buffer) has no 'after'
+							let on_text = self.grapheme_at_cursor().is_some_and(|gr| gr != "\n");
 							let insert_idx = match anchor {
-								Anchor::After => self.cursor.ret_add(1),
-								Anchor::Before => self.cursor.get()
+								Anchor::After if on_text => self.cursor.ret_add(1),
+								_ => self.cursor.get()
 							};
-							let len = content.len();
+							let len = match &content {
+								RegisterContent::Span(text) => text.graphemes(true).count(),
+								other => other.len()
+							};
 							self.insert_register_content(insert_idx, content, anchor);
 							if register.is_block() {
 								self.cursor.set(insert_idx);
 							} else {
-								self.cursor.add(len.saturating_sub(1));
+								// The cursor ends on the last character that was put
+								self.cursor.set(insert_idx + len.saturating_sub(1));
 							}
 						}
 					}
@@ -4098,6 +4114,7 @@ impl LineBuf {
 		};
 
 		if let Some(verb) = verb.clone() {
+			self.verb_count = verb.0.max(1);
 			self.exec_verb(verb.1, motion_eval, register)?;
 		} else {
 			self.apply_motion(motion_eval);
